@@ -101,7 +101,7 @@ PROPS["C13"] = {
     "level_note": "JSON over-approximation; bounds above; reductions R1/R2.",
 }
 PROPS["C09"] = {
-    "groups": [{"run": "^vpH_C09_T_|^vpH_C11_T_stop_vs_notify$"}],
+    "groups": [{"run": "^vpH_C09_T_|^vpH_C11_T_stop_vs_notify$|^vpH_C06_T_restart_stuck$"}],
     "bounds": {"quick": "stop variants Stop, StopWithContext{}, {DeleteKey}, {DeleteKey,WaitForDemote}; the stop call is placed by the explorer at EVERY store-operation leg (before issue, between issue and application, between application and response, after the response) and at every quiescent instant (timer boundary) of (a) a leader during 2.5 heartbeats, (b) a follower during the 500ms in which its leader vanishes and its acquisition round runs (jitter wait, Create in flight), (c) the first second after Start with a Create latency of up to 7s (longer than Stop's own 5s wait); repeated stops and stop-then-start; after the return: 6s (or 15s) more of virtual time, then the claim, OnPromote count, store-operation issue log, surviving goroutines and state are checked"},
     "outside": "stops during reconnect verification (C11 harnesses); OnDemote callbacks that block; StopWithContext with a caller context that is cancelled",
     "assumptions": [],
@@ -117,7 +117,7 @@ PROPS["C08"] = {
     "level_note": "Exhaustive over the listed causes and schedules within R1/R2; data is concrete in this family (the solver decides clock comparisons).",
 }
 PROPS["C19"] = {
-    "groups": [{"run": "^vpH_C08_T_"}],
+    "groups": [{"run": "^vpH_C08_T_|^vpH_C19_T_"}],
     "bounds": {"quick": "one real instance, H=1s, elected directly or through the follower path (watcher running), promotion callback returning at once or blocking on its context; first term ended by each cause: record replaced (heartbeat conflict), record deleted, three failing refreshes, record taken by a later incarnation while refreshes hang (periodic validation), health threshold, preemption observed through the watcher before the next heartbeat, Stop, StopWithContext{WaitForDemote}, StopWithContext{DeleteKey,WaitForDemote}; then (unless stopped) the blocking record is removed, the instance leads a second term through the real follower path and is stopped; heartbeat and validation tickers coinciding (two causes in one tick); audits at every quiescent point"},
     "outside": "as C08",
     "assumptions": [],
@@ -193,6 +193,20 @@ PROPS["S00"] = {"groups": [{"run": "^vpH_S00_"}], "level_text": "engine smoke te
 NOT_APPLICABLE = {}
 
 # scenario families added after the unseen seeded rounds (appended to the quick bound text of each property)
+_ADD2 = {
+    "C01": "; a Create whose answer arrives 300 ms late while a priority-30 instance preempts the new record (refreshes go against the instance's own revision)",
+    "C03": "; every refresh failing at once with a flapping health checker (never two unhealthy in a row: the failure count is not restarted by health verdicts); every refresh failing at once and every read hanging with the periodic validation at the heartbeat interval (demotion at the completion of the third failed attempt)",
+    "C05": "; two election objects with the same InstanceID one after the other on one store (a restarted process)",
+    "C06": "; H = 100 ms against a healthy store needing 80 ms per operation; a vacancy during a 1.5 s write outage (filled within 700 ms of the recovery)",
+    "C07": "; validation_slow also with H = 20 s and answers after 6 s",
+    "C08": "; a log sink taking up to 700 ms on the leader_demoted line while the instance is re-elected; the Start context cancelled at the leader_promoted log line",
+    "C09": "; Stop returns within its own 5 s while a periodic read is swallowed by the store for 9 s",
+    "C12": "; H = 40 ms with checks taking 150 ms (first three verdicts explorer-chosen); a disconnect/reconnect blip with successful verification inside an unhealthy streak",
+    "C13": "; struct-decoding failures are *json.UnmarshalTypeError for valid JSON and *json.SyntaxError otherwise",
+    "C14": "; deletion markers among the emitted entries (delivered as entries with an empty value and their revision); entries kept by the consumer do not change afterwards",
+    "C18": "; a 500 ms OnDemote callback during which the instance wins the record again",
+    "C19": "; connection-loss demotion (grace expiry) and a successful reconnect verification, with a promotion callback blocked on its context",
+}
 _ADD = {
     "C01": "; plus the C05 term histories (three terms; a slow second Create after a purge), the C13 follower next to foreign bytes then a vacancy, and the C10 late-round scenario; a refresh must also repeat the token",
     "C02": "; H from 1 ms; plus a restart while a Create of the previous run is in flight (every Create 300 ms, TTL 3H, claim checked more than a TTL later) and the C07 stale-read scenario with a change of leader",
@@ -215,7 +229,7 @@ _ADD = {
 }
 for _k, _v in _ADD.items():
     if _k in PROPS and "bounds" in PROPS[_k] and "quick" in PROPS[_k]["bounds"]:
-        PROPS[_k]["bounds"]["quick"] += _v
+        PROPS[_k]["bounds"]["quick"] += _v + _ADD2.get(_k, "")
 
 _ADD_THOROUGH = {
     "C10": "as quick plus: the third party writes twice (two symbolic priorities), each write at any store-operation leg of the candidate",
